@@ -39,6 +39,15 @@ func (s *pipeSink) PushTyped(item int) {
 
 func genPipe(r *kit.Rand, tier kit.Tier) pipeCase {
 	c := pipeCase{Width: r.Range(1, 4), Stages: r.Weighted(0, 4, 3, 2, 2, 1, 1)}
+
+	switch r.Intn(12) {
+	case 0:
+		c.Width = r.PickInt(8, 16, 17, 33)
+	case 1:
+		c.Width = r.PickInt(64, 65, 100, 130) // beyond any machine-word lane mask
+	}
+
+	wide := c.Width > 4
 	n := r.Range(1, 40)
 
 	if tier == kit.Thorough {
@@ -53,6 +62,10 @@ func genPipe(r *kit.Rand, tier kit.Tier) pipeCase {
 		t := pipeTick{Room: 1 << 20}
 
 		na := r.Weighted(3, 4, 2, 1)
+		if wide && r.Chance(1, 2) {
+			na = r.Range(c.Width/2, c.Width+1)
+		}
+
 		for k := 0; k < na; k++ {
 			d := 0
 
@@ -137,6 +150,13 @@ func execPipe(c pipeCase, _ *kit.Env) kit.Outcome {
 			}
 
 			var np queueing.Pipeline[int]
+
+			if tick%2 == 1 {
+				// restore into a live pipeline that already holds other content
+				np = queueing.NewPipeline[int](c.Width+1, c.Stages+1)
+				np.Accept(-5)
+			}
+
 			if err := json.Unmarshal(raw, &np); err != nil {
 				return kit.Violate("pipeline-model", "C15:json", "unmarshal: %v", err)
 			}
@@ -308,7 +328,7 @@ func init() {
 	kit.Register(kit.Spec[pipeCase]{
 		ID:    "C15",
 		Level: "exploration",
-		Rule: "tick scripts on queueing.Pipeline[int]: width 1-4, 1-6 stages, per-item dwell delay 0-3, accepts bounded by CanAccept, sink room per tick (always roomy / random / long stalls), JSON restart mid-flight; " +
+		Rule: "tick scripts on queueing.Pipeline[int]: width 1-4 (1 in 6: 8-130 lanes), 1-6 stages, per-item dwell delay 0-3, accepts bounded by CanAccept, sink room per tick (always roomy / random / long stalls), JSON restart mid-flight; " +
 			"after the script the sink is roomy for stages+maxDelay+1 ticks; distinct = hash of geometry + (item, exit tick) list; non-trivial = >=2 items and (a blocked sink tick, a delayed item or a restart)",
 		Assumptions: []string{"the pipeline has no clock of its own; a tick is one call of Tick; restart (JSON) and sink stalls are the fault dimension"},
 		Real:        []string{"queueing.Pipeline", "pipeline JSON codec"},
